@@ -115,5 +115,108 @@ Theorem g_recur_fetch_forward_unbounded (r : rule) rr b :
   g_forward_of r rr None b = RRaise ValueError.
 Proof. reflexivity. Qed.
 
+(* ------------------------------------------------------------------------------------------ *)
+(* _fetch_reverse                                                                              *)
+
+(* everything the forward fetch returns has an integer start (the translation of the chunk
+   filter `ivl.start < current_end` assumes it: see "assume_not_none" in srcspecs.py) *)
+Lemma stream_period_starts r a b : forall occ l stop,
+  stream_period r a b occ = Some (l, stop) -> Forall (fun i => st i = Some (fstart i)) l.
+Proof.
+  induction occ as [|d occ IH]; intros l stop H; cbn [stream_period] in H.
+  - injection H as <- <-. constructor.
+  - destruct (occurrence_to_interval r d) as [i|] eqn:Ei; [|discriminate].
+    destruct (zmem (fstart i) (r_exdates r)); [eapply IH; exact H|].
+    destruct (fend i <=? a); [eapply IH; exact H|].
+    destruct (b <? fstart i); [injection H as <- <-; constructor|].
+    destruct (stream_period r a b occ) as [[l' stop']|] eqn:E; [|discriminate].
+    injection H as <- <-. constructor; [|eapply IH; reflexivity].
+    destruct (oti_shape r d i Ei) as (ts & te & ->). reflexivity.
+Qed.
+
+Lemma stream_go_starts r q a b : forall fuel st l,
+  stream_go fuel r q a b st = Ok l -> Forall (fun i => Base.st i = Some (fstart i)) l.
+Proof.
+  induction fuel as [|f IH]; intros st l H; cbn [stream_go] in H; [discriminate|].
+  destruct (stream_period r a b (period_occ q st)) as [[l1 [|]]|] eqn:E; [| |discriminate].
+  - injection H as <-. eapply stream_period_starts; exact E.
+  - destruct (stream_go f r q a b (next_state q st)) as [l'| |] eqn:E2; try discriminate.
+    injection H as <-. apply Forall_app. split; [eapply stream_period_starts; exact E|eapply IH; exact E2].
+Qed.
+
+Lemma fetch_forward_starts r a b l :
+  fetch_forward r a b = Ok l -> Forall (fun i => st i = Some (fstart i)) l.
+Proof.
+  unfold fetch_forward. destruct (safe_anchor r _); [|discriminate]. apply stream_go_starts.
+Qed.
+
+(* the abstracted forward fetch of a chunk, read off the model *)
+Definition fwd_or (r : rule) (cs ce : Z) : list ivl :=
+  match fetch_forward r cs ce with Ok l => l | _ => [] end.
+
+(* the number of chunks the model allows itself *)
+Definition reverse_fuel (r : rule) (start : option Z) (e : Z) : nat :=
+  let effective_start := match start with Some s => s | None => e - 10 * 365 * DAY end in
+  Z.to_nat (Z.max 0 (e - effective_start) / chunk_size (r_freq r) + 2).
+
+Lemma chunk_ladder f :
+  (if freq_eqb f Daily then 30 * 86400
+   else if freq_eqb f Weekly then 12 * 604800
+   else if freq_eqb f Monthly then 365 * 86400
+   else 5 * 365 * 86400) = chunk_size f.
+Proof. destruct f; reflexivity. Qed.
+
+(* HEADLINE: whenever the model's reverse fetch succeeds, the code's _fetch_reverse (as translated
+   from its source text: the `while` pager, the two-condition chunk filter, `reversed`), with
+   the same fuel, returns the same list *)
+Theorem g_recur_fetch_reverse_eq (r : rule) (start : option Z) (e : Z) (l : list ivl) :
+  fetch_reverse_opt r start e = Ok l ->
+  g_recur_fetch_reverse (reverse_fuel r start e) (r_freq r) (fwd_or r) start (Some e) = RDone l.
+Proof.
+  unfold fetch_reverse_opt, g_recur_fetch_reverse, reverse_fuel. cbv zeta.
+  rewrite chunk_ladder.
+  change (10 * 365 * 86400) with (10 * 365 * DAY).
+  set (eff := match start with Some s => s | None => e - 10 * 365 * DAY end).
+  generalize (Z.to_nat (Z.max 0 (e - eff) / chunk_size (r_freq r) + 2)) as fuel.
+  intro fuel.
+  match goal with
+  | |- reverse_go _ _ _ _ _ _ = _ -> run_while _ ?cond ?body ?post _ = _ =>
+    assert (HH : forall fuel cur l, reverse_go fuel r eff start e cur = Ok l ->
+                                    run_while fuel cond body post cur = RDone l); [|apply HH]
+  end.
+  clear fuel l.
+  induction fuel as [|f IH]; intros cur l H; cbn [reverse_go run_while] in *;
+    rewrite Z.gtb_ltb; rewrite (Z.leb_antisym eff cur) in H;
+    destruct (eff <? cur); cbn [negb] in H; try discriminate;
+    try (injection H as <-; reflexivity).
+  set (cs := Z.max eff (cur - chunk_size (r_freq r))) in *.
+  destruct (fetch_forward r cs cur) as [l0| |] eqn:Ef; try discriminate.
+  assert (Hfw : fwd_or r cs cur = l0) by (unfold fwd_or; rewrite Ef; reflexivity).
+  rewrite Hfw.
+  pose proof (fetch_forward_starts r cs cur l0 Ef) as Hst.
+  match goal with
+  | H : context [filter ?p l0] |- context [filter ?p' l0] =>
+    assert (Hfl : filter p' l0 = filter p l0)
+  end.
+  { apply filter_ext_in. intros i Hi. rewrite Forall_forall in Hst. rewrite (Hst i Hi).
+    cbn [ozd]. rewrite Z.geb_leb. reflexivity. }
+  rewrite Hfl. clear Hfl.
+  set (chunk := filter _ l0) in *.
+  destruct start as [s|]; cbn [is_none negb andb ozd] in *.
+  - destruct (cs <=? s).
+    + injection H as <-. cbn [app]. rewrite app_nil_r. reflexivity.
+    + destruct (reverse_go f r eff (Some s) e cs) as [l'| |] eqn:E2; try discriminate.
+      injection H as <-. rewrite (IH cs l' E2). reflexivity.
+  - destruct (reverse_go f r eff None e cs) as [l'| |] eqn:E2; try discriminate.
+    injection H as <-. rewrite (IH cs l' E2). reflexivity.
+Qed.
+
+(* end=None raises ValueError *)
+Theorem g_recur_fetch_reverse_unbounded fuel f fwd a :
+  g_recur_fetch_reverse fuel f fwd a None = RRaise ValueError.
+Proof. reflexivity. Qed.
+
 Print Assumptions g_recur_fetch_forward_eq.
 Print Assumptions g_recur_fetch_forward_unbounded.
+Print Assumptions g_recur_fetch_reverse_eq.
+Print Assumptions g_recur_fetch_reverse_unbounded.
